@@ -219,6 +219,21 @@ Proof. destruct l; [congruence|reflexivity]. Qed.
 Lemma rt_mem_mid c l1 l2 : mem c (l1 ++ c :: l2) = true.
 Proof. unfold mem. rewrite existsb_app. cbn [existsb]. rewrite N.eqb_refl, orb_true_r. reflexivity. Qed.
 
+(* the texts of this file as a predicate: sign, digits, then a fraction or an exponent (a float text) *)
+Definition rt_shape (s : bstr) : Prop :=
+  exists (neg : bool) (ip fp : bstr) (hasexp eneg : bool) (ex : bstr),
+    s = rt_text neg ip fp hasexp eneg ex /\ rt_digs ip /\ ip <> [] /\ rt_digs fp /\ rt_digs ex /\
+    (if hasexp then ex <> @nil N else True) /\ (fp <> [] \/ (hasexp = true /\ exists d, ip = [d])).
+
+Lemma rt_mem_digs c l : rt_digs l -> (c < 48 \/ 57 < c) -> mem c l = false.
+Proof.
+  intros Hl Hc. unfold mem. induction Hl as [|d l Hd Hl IH]; [reflexivity|]. cbn [existsb]. rewrite IH.
+  unfold is_digit_byte in Hd. replace (c =? d) with false by lia. reflexivity.
+Qed.
+
+Lemma rt_mem_sign c (neg : bool) l : c <> 45 -> mem c ((if neg then [45] else []) ++ l) = mem c l.
+Proof. intros Hc. destruct neg; [|reflexivity]. unfold mem. cbn [app existsb]. replace (c =? 45) with false by lia. reflexivity. Qed.
+
 Section Fmt.
 Variables (neg : bool) (c p : Z) (x : fl) (ds : bstr).
 Hypothesis Hc : (0 < c)%Z.
@@ -243,7 +258,7 @@ Proof.
 Qed.
 
 Lemma rt_case_exp : ((dp - 1 <? -4) || (6 <=? dp - 1))%Z = true ->
-  parse_float_round (fmt_g sign ds dp) = FRVal x /\ mem 46 (fmt_g sign ds dp) || mem 101 (fmt_g sign ds dp) = true.
+  parse_float_round (fmt_g sign ds dp) = FRVal x /\ mem 46 (fmt_g sign ds dp) || mem 101 (fmt_g sign ds dp) = true /\ rt_shape (fmt_g sign ds dp).
 Proof.
   intros Hcond. unfold fmt_g. cbv zeta. rewrite Hcond.
   destruct ds as [|d1 rest] eqn:Eds; [congruence|].
@@ -258,12 +273,17 @@ Proof.
     apply rt_parse_text; [constructor; [exact Hd1|constructor]|discriminate|exact Hrest|exact Xd|exact Xn|exact Hval|].
     rewrite Xv. assert (Hl : nd = (1 + Z.of_nat (length rest))%Z) by (unfold nd; cbn [length]; lia).
     destruct (Z.ltb_spec (dp - 1) 0); unfold dp in *; lia.
-  - unfold rt_text, rt_tail. rewrite !app_assoc. rewrite (rt_mem_mid 101). apply orb_true_r.
+  - split; [unfold rt_text, rt_tail; rewrite !app_assoc; rewrite (rt_mem_mid 101); apply orb_true_r|].
+    pose proof (Forall_inv Hds) as Hd1. pose proof (Forall_inv_tail Hds) as Hrest.
+    exists neg, [d1], rest, true, (dp - 1 <? 0)%Z, exd2. split; [reflexivity|].
+    split; [constructor; [exact Hd1|constructor]|]. split; [discriminate|]. split; [exact Hrest|]. split; [exact Xd|]. split; [exact Xn|].
+    destruct rest; [right; split; [reflexivity|eexists; reflexivity]|left; discriminate].
 Qed.
 
 Lemma rt_case_small : (dp <= 0)%Z ->
   parse_float_round (sign ++ [48; 46] ++ zeros (- dp) ++ ds) = FRVal x /\
-  mem 46 (sign ++ [48; 46] ++ zeros (- dp) ++ ds) || mem 101 (sign ++ [48; 46] ++ zeros (- dp) ++ ds) = true.
+  mem 46 (sign ++ [48; 46] ++ zeros (- dp) ++ ds) || mem 101 (sign ++ [48; 46] ++ zeros (- dp) ++ ds) = true /\
+  rt_shape (sign ++ [48; 46] ++ zeros (- dp) ++ ds).
 Proof.
   intros Hdp. unfold zeros.
   assert (Et : sign ++ [48; 46] ++ repeat 48 (Z.to_nat (- dp)) ++ ds = rt_text neg [48] (repeat 48 (Z.to_nat (- dp)) ++ ds) false false []).
@@ -273,16 +293,21 @@ Proof.
   - apply rt_parse_text; [constructor; [unfold is_digit_byte; lia|constructor]|discriminate|apply rt_digs_app; [apply rt_digs_zeros|exact Hds]|constructor|auto| |].
     + cbn [app dec_val]. replace (0 * 10 + (48 - 48)) with 0 by lia. rewrite rt_dec_val_app, rt_dec_val_zeros. rewrite N.mul_0_l. exact Hval.
     + cbn [dec_val]. rewrite app_length, repeat_length. unfold dp, nd in *. lia.
-  - unfold rt_text. rewrite (rt_mem_mid 46 (if neg then [45] else []) ++ [48])%list || idtac.
-    change ((if neg then [45] else []) ++ [48] ++ rt_fpart (repeat 48 (Z.to_nat (- dp)) ++ ds) ++ rt_tail false false [])
-      with ((if neg then [45] else []) ++ [48] ++ rt_fpart (repeat 48 (Z.to_nat (- dp)) ++ ds) ++ []).
-    rewrite rt_fpart_ne by (destruct (repeat 48 (Z.to_nat (- dp))); [exact Hne|discriminate]).
-    rewrite app_assoc. cbn [app]. rewrite (rt_mem_mid 46). reflexivity.
+  - assert (Hz48 : rt_digs [48]) by (constructor; [unfold is_digit_byte; lia|constructor]).
+    assert (Hfp : rt_digs (repeat 48 (Z.to_nat (- dp)) ++ ds)) by (apply rt_digs_app; [apply rt_digs_zeros|exact Hds]).
+    assert (Hfn : repeat 48 (Z.to_nat (- dp)) ++ ds <> []) by (destruct (repeat 48 (Z.to_nat (- dp))); [exact Hne|discriminate]).
+    split.
+    + rewrite <- Et. replace (sign ++ [48; 46] ++ repeat 48 (Z.to_nat (- dp)) ++ ds) with ((sign ++ [48]) ++ 46 :: repeat 48 (Z.to_nat (- dp)) ++ ds) by (rewrite <- app_assoc; reflexivity).
+      rewrite (rt_mem_mid 46). reflexivity.
+    + exists neg, [48], (repeat 48 (Z.to_nat (- dp)) ++ ds), false, false, []. split; [reflexivity|].
+      split; [exact Hz48|]. split; [discriminate|]. split; [exact Hfp|]. split; [constructor|]. split; [exact Logic.I|]. left. exact Hfn.
 Qed.
 
 Lemma rt_case_int : (nd <= dp)%Z ->
   parse_float_round (sign ++ ds ++ zeros (dp - nd)) = FRVal x /\
-  parse_float_round ((sign ++ ds ++ zeros (dp - nd)) ++ [46; 48]) = FRVal x.
+  parse_float_round ((sign ++ ds ++ zeros (dp - nd)) ++ [46; 48]) = FRVal x /\
+  mem 46 (sign ++ ds ++ zeros (dp - nd)) || mem 101 (sign ++ ds ++ zeros (dp - nd)) = false /\
+  rt_shape ((sign ++ ds ++ zeros (dp - nd)) ++ [46; 48]).
 Proof.
   intros Hdp. unfold zeros. set (zs := repeat 48 (Z.to_nat (dp - nd))).
   assert (Hz : rt_digs zs) by apply rt_digs_zeros.
@@ -290,7 +315,7 @@ Proof.
   { rewrite rt_dec_val_app. unfold zs. rewrite rt_dec_val_zeros. rewrite N2Z.inj_mul, N2Z.inj_pow, Hval, nat_N_Z, Z2Nat.id by lia. reflexivity. }
   assert (Hn2 : ds ++ zs <> []) by (destruct ds; [congruence|discriminate]).
   assert (P : (0 < 10 ^ (dp - nd))%Z) by (apply Z.pow_pos_nonneg; lia).
-  split.
+  split; [|split].
   - assert (Et : sign ++ ds ++ zs = rt_text neg (ds ++ zs) [] false false []).
     { unfold rt_text, rt_tail, rt_fpart, sign. cbn [app]. rewrite !app_nil_r. reflexivity. }
     rewrite Et. unfold parse_float_round.
@@ -309,11 +334,18 @@ Proof.
     rewrite rt_dec_val_app. cbn [dec_val]. replace (48 - 48) with 0 by lia. rewrite N.add_0_r, N2Z.inj_mul, Hv.
     replace (Z.max 0 p) with 0%Z by (unfold dp in *; lia). replace (Z.max 0 (- p)) with (dp - nd)%Z by (unfold dp in *; lia).
     rewrite !Z.pow_0_r. change (Z.of_N 10) with 10%Z. change (10 ^ 1)%Z with 10%Z. ring.
+  - split.
+    + unfold sign. rewrite !rt_mem_sign by lia. rewrite !(rt_mem_digs _ (ds ++ zs)) by (try apply rt_digs_app; try assumption; lia). reflexivity.
+    + assert (H48 : rt_digs [48]) by (constructor; [unfold is_digit_byte; lia|constructor]).
+      exists neg, (ds ++ zs), [48], false, false, []. split.
+      { unfold rt_text, rt_tail, rt_fpart, sign. cbn [app]. rewrite <- !app_assoc. reflexivity. }
+      split; [apply rt_digs_app; assumption|]. split; [exact Hn2|]. split; [exact H48|]. split; [constructor|]. split; [exact Logic.I|]. left. discriminate.
 Qed.
 
 Lemma rt_case_mid : (0 < dp < nd)%Z ->
   parse_float_round (sign ++ firstn (Z.to_nat dp) ds ++ [46] ++ skipn (Z.to_nat dp) ds) = FRVal x /\
-  mem 46 (sign ++ firstn (Z.to_nat dp) ds ++ [46] ++ skipn (Z.to_nat dp) ds) || mem 101 (sign ++ firstn (Z.to_nat dp) ds ++ [46] ++ skipn (Z.to_nat dp) ds) = true.
+  mem 46 (sign ++ firstn (Z.to_nat dp) ds ++ [46] ++ skipn (Z.to_nat dp) ds) || mem 101 (sign ++ firstn (Z.to_nat dp) ds ++ [46] ++ skipn (Z.to_nat dp) ds) = true /\
+  rt_shape (sign ++ firstn (Z.to_nat dp) ds ++ [46] ++ skipn (Z.to_nat dp) ds).
 Proof.
   intros Hdp. set (a := firstn (Z.to_nat dp) ds). set (r := skipn (Z.to_nat dp) ds).
   assert (Ear : a ++ r = ds) by apply firstn_skipn.
@@ -328,21 +360,26 @@ Proof.
   - apply rt_parse_text; [apply Hd2|exact Ha|apply Hd2|constructor|auto| |].
     + rewrite Ear. exact Hval.
     + cbn [dec_val]. rewrite Lr. unfold dp, nd in *. lia.
-  - rewrite <- Et. rewrite app_assoc. cbn [app]. rewrite (rt_mem_mid 46). reflexivity.
+  - split; [rewrite <- Et; rewrite app_assoc; cbn [app]; rewrite (rt_mem_mid 46); reflexivity|].
+    exists neg, a, r, false, false, []. split; [reflexivity|]. split; [apply Hd2|]. split; [exact Ha|]. split; [apply Hd2|].
+    split; [constructor|]. split; [exact Logic.I|]. left. exact Hr.
 Qed.
 
-(* the four layouts together *)
+(* the four layouts together: the text reads back, and it is a float text -- as it stands when it has a '.' or an 'e',
+   with ".0" appended otherwise (what ast FloatNode.String does) *)
 Theorem rt_fmt_g_parse :
   parse_float_round (fmt_g sign ds dp) = FRVal x /\
-  (mem 46 (fmt_g sign ds dp) || mem 101 (fmt_g sign ds dp) = true \/ parse_float_round (fmt_g sign ds dp ++ [46; 48]) = FRVal x).
+  ((mem 46 (fmt_g sign ds dp) || mem 101 (fmt_g sign ds dp) = true /\ rt_shape (fmt_g sign ds dp)) \/
+   (mem 46 (fmt_g sign ds dp) || mem 101 (fmt_g sign ds dp) = false /\
+    parse_float_round (fmt_g sign ds dp ++ [46; 48]) = FRVal x /\ rt_shape (fmt_g sign ds dp ++ [46; 48]))).
 Proof.
   destruct ((dp - 1 <? -4) || (6 <=? dp - 1))%Z eqn:C1.
-  - destruct (rt_case_exp C1) as [A B]. auto.
+  - destruct (rt_case_exp C1) as (A & B & C). auto.
   - unfold fmt_g. cbv zeta. rewrite C1. fold nd.
     destruct (Z.leb_spec dp 0) as [C2|C2].
-    + destruct (rt_case_small C2) as [A B]. auto.
+    + destruct (rt_case_small C2) as (A & B & C). auto.
     + destruct (Z.leb_spec nd dp) as [C3|C3].
-      * destruct (rt_case_int C3) as [A B]. auto.
-      * destruct (rt_case_mid (conj C2 C3)) as [A B]. auto.
+      * destruct (rt_case_int C3) as (A & B & C & D). auto.
+      * destruct (rt_case_mid (conj C2 C3)) as (A & B & C). auto.
 Qed.
 End Fmt.
